@@ -219,10 +219,12 @@ pub fn eval_case(ops: &[Op], drv: Option<&mut Drv>, pools: &[Pool], rng: &mut Rn
             let mode = if rng.chance(75) { "par" } else { "seq" };
             let how = if built.infos[&t].is_batch || rng.chance(50) {
                 1
-            } else if rng.chance(50) {
+            } else if rng.chance(40) {
                 2
-            } else {
+            } else if rng.chance(50) {
                 3
+            } else {
+                4
             };
             plan_rounds.push((mode.to_string(), Some(t), how));
             plan_rounds.push((mode.to_string(), None, 0));
@@ -334,7 +336,7 @@ pub fn eval_case(ops: &[Op], drv: Option<&mut Drv>, pools: &[Pool], rng: &mut Rn
         match (&res, panicking.is_empty()) {
             (Err(p), true) => {
                 let m = panic_message(p);
-                let prop = if m.contains("already") && m.contains("borrowed") { "C01" } else { "C14" };
+                let prop = if m.contains("already") && m.contains("borrowed") && !m.starts_with("harness panic") { "C01" } else { "C14" };
                 out.impl_v.push((prop.into(), format!("dispatch ({}) panicked although no system was told to: {}", mode, m)));
                 if prop == "C01" && Op::depth(ops) > 0 {
                     out.impl_v.push(("C07".into(), format!("borrow-conflict panic during dispatch: {}", m)));
@@ -350,7 +352,7 @@ pub fn eval_case(ops: &[Op], drv: Option<&mut Drv>, pools: &[Pool], rng: &mut Rn
             (Err(p), false) => {
                 let m = panic_message(p);
                 let rd = shared.round.load(SeqCst);
-                let ok = panicking.iter().any(|t| m == format!("harness panic (run) {} #{}", t, rd) || m == format!("harness panic (fetch) {} #{}", t, rd) || m == format!("harness panic (typed) {} #{}", t, rd));
+                let ok = panicking.iter().any(|t| m == format!("harness panic (run) {} #{}", t, rd) || m == format!("harness panic (fetch) {} #{}", t, rd) || m == format!("harness panic (typed) {} #{}", t, rd) || m == format!("harness panic (like-borrow) {} #{}: already borrowed", t, rd));
                 if !ok {
                     out.impl_v.push(("C14".into(), format!("the panic that reached the caller carries {:?}, not the payload of a panicking system ({:?})", m, panicking)));
                 }
